@@ -4,7 +4,7 @@ from .. import common, gen, oracle, modelio, pipefam, pool
 
 RULE = ("triples (input, shifted by k up to 2^31-1-span, mirrored about M) whose left windows are not truncated, through the real "
         "library stages; the implementation's own outputs are compared with each other (shift: every cell equal; mirror: left<->right "
-        "exchanged, intra equal) and the base run with the model; monotonicity of round(v*D) over window lists with >= 3 windows; "
+        "exchanged, intra equal) and the base run with the model; monotonicity of round(v*D) over window lists with >= 3 windows, also for every third input pushed against coordinate 1 (left windows cut); "
         "non-trivial = same-group overlap and a TE on a region boundary; distinct = canonical JSON")
 MAXC = 2**31 - 1
 
@@ -84,6 +84,33 @@ def triple_failures(base, ws, k, M, reps):
     return fails
 
 
+def near_origin_failures(case, rep):
+    """monotone in the window also where left windows are cut at coordinate 0: counts = round(v * region length), the left region
+    of a gene starting at s being min(w + 1, s) positions long"""
+    if not rep.get("ok"):
+        return [{"kind": "run_failed", "variant": "near_origin", "exc": rep.get("exc"), "msg": rep.get("msg")}]
+    ws = gen.windows_list(*case["windows"])
+    b = real_cells(case, rep)
+    start = {g["name"]: g["start"] for g in case["genes"]}
+    def count(sd, w, g, v):
+        return round(v * (min(w + 1, start[g]) if sd == 0 else w + 1))
+    for (c, lv, name, sd, w, g), v in b.items():
+        if sd == 1:
+            continue
+        i = ws.index(w)
+        if i + 1 < len(ws):
+            v2 = b.get((c, lv, name, sd, ws[i + 1], g))
+            if v2 is not None and count(sd, ws[i + 1], g, v2) < count(sd, w, g, v):
+                return [{"kind": "not_monotone_near_origin", "key": [c, lv, name, sd, g], "gene_start": start[g], "windows": [w, ws[i + 1]],
+                         "counts": [count(sd, w, g, v), count(sd, ws[i + 1], g, v2)]}]
+    return []
+
+
+def near_origin(case):
+    lo = min([g["start"] for g in case["genes"]] + [t["start"] for t in case["tes"]])
+    return shifted(case, 1 - lo)
+
+
 def make_triple(r, raw):
     base, ws = untruncate(raw)
     hi = max([g["stop"] for g in base["genes"]] + [t["stop"] for t in base["tes"]])
@@ -112,6 +139,16 @@ def run(chk):
         triples.append((base, ws, k, M, len(reqs)))
         reqs += [base, shifted(base, k), mirrored(base, M)]
     reps = pipefam.run_impl(reqs)
+    # every third input also pushed against coordinate 1, where the left windows are cut
+    nears = [near_origin(t[0]) for i, t in enumerate(triples) if i % 3 == 0 and len(t[1]) >= 2]
+    nreps = pipefam.run_impl(nears)
+    near_bad = []
+    for c_, rep_ in zip(nears, nreps):
+        chk.count("near_origin_variants")
+        chk.cov["evaluations"] += 1
+        f_ = near_origin_failures(c_, rep_)
+        if f_:
+            near_bad.append((c_, f_))
     try:
         models = modelio.eval_cases("c06", [t[0] for t in triples])
         chk.oblige("model evaluation (vm_compute) of every case", True)
@@ -143,6 +180,10 @@ def run(chk):
                 chk.violation("shift invariance / mirror symmetry / window monotonicity broken",
                               {"case": {x: small[x] for x in ("genes", "tes", "windows")}, "shift": k, "mirror_about": M,
                                "failures": fails[:5], "note": "replay re-derives shift and mirror point from the case"})
+    for c_, f_ in near_bad[:2]:
+        nv += 1
+        chk.violation("window monotonicity broken where the left window is cut at coordinate 0",
+                      {"case": {x: c_[x] for x in ("genes", "tes", "windows")}, "near_origin": True, "failures": f_})
     chk.oblige("correspondence model = implementation (base run of every triple)", not diffs_all, json.dumps(diffs_all[:1])[:2000])
     for t in triples[:2]:
         chk.sample({"n_genes": len(t[0]["genes"]), "n_tes": len(t[0]["tes"]), "windows": t[0]["windows"], "shift": t[2], "mirror_about": t[3]})
@@ -150,6 +191,10 @@ def run(chk):
 
 
 def replay(chk, rp):
+    if rp.get("near_origin"):
+        f_ = near_origin_failures(rp["case"], pipefam.run_impl([rp["case"]])[0])
+        print(json.dumps({"failures": f_}, indent=1))
+        return 1 if f_ else 0
     r = chk.rng("replay")
     base, ws, k, M = make_triple(r, rp["case"])
     k = min(rp.get("shift", k), k) if rp.get("shift") is not None else k
